@@ -26,10 +26,26 @@ def main():
             try: notes = json.load(open(os.path.join(src, "meta.json")))
             except Exception: pass
         meta["what_breaks"] = notes.get("what_breaks"); meta["needs_to_manifest"] = notes.get("needs_to_manifest"); meta["files_changed"] = notes.get("files_changed")
-        shutil.copytree("/repo", clean, ignore=ign); shutil.copytree("/repo", pat, ignore=ign)
+        prev = None
+        if os.environ.get("SEED_REUSE"):
+            # re-run only the checks: the confirmation steps (tests, demo) recorded earlier for this very patch and /repo HEAD are kept
+            try:
+                prev = json.load(open(os.path.join("/verif/seeded", sid, "meta.json")))
+                head = sh(["git", "-C", "/repo", "rev-parse", "HEAD"]).stdout.strip()
+                if not (prev.get("confirmed") and prev.get("repo_head", head) == head):
+                    prev = None
+            except Exception:
+                prev = None
+        meta["repo_head"] = sh(["git", "-C", "/repo", "rev-parse", "HEAD"]).stdout.strip()
+        shutil.copytree("/repo", pat, ignore=ign)
         r = sh(["patch", "-p1", "-s", "-i", os.path.abspath(os.path.join(src, "patch.diff"))], cwd=pat)
         meta["ran"].append("patch -p1 < patch.diff on a copy of /repo HEAD: exit %d" % r.returncode)
         if r.returncode: print("PATCH FAILED", r.stdout, r.stderr); return 2
+        if prev is not None:
+            meta["ran"] = list(prev["ran"][:3])
+            meta["confirmed"] = True
+            return run_checks(meta, checks, pat, tmp, src, sid, os.path.abspath(os.path.join(src, "demo.py")))
+        shutil.copytree("/repo", clean, ignore=ign)
         r = sh(["/venv/bin/python", "/verif/tools/baseline.py", pat]); line = r.stdout.strip().splitlines()[0]
         meta["ran"].append("tools/baseline.py <patched>: " + line); tests_ok = r.returncode == 0
         print(line)
@@ -42,6 +58,13 @@ def main():
         meta["ran"].append("demo.py on clean copy: exit %d; on patched copy: exit %d" % (r1.returncode, r2.returncode))
         print("demo clean exit=%d patched exit=%d" % (r1.returncode, r2.returncode)); print("   " + (r2.stdout.strip().splitlines() or [""])[-1][:200])
         meta["confirmed"] = bool(tests_ok and r1.returncode == 0 and r2.returncode != 0)
+        return run_checks(meta, checks, pat, tmp, src, sid, d)
+    finally:
+        shutil.rmtree(tmp, ignore_errors=True)
+    return 0
+
+def run_checks(meta, checks, pat, tmp, src, sid, d):
+    if True:
         meta["detected_by"] = []; meta["check_results"] = {}
         for c in checks:
             tier = "quick"
@@ -58,7 +81,5 @@ def main():
             shutil.copy(os.path.join(src, "patch.diff"), out); shutil.copy(d, out)
         json.dump(meta, open(os.path.join(out, "meta.json"), "w"), indent=1)
         print("confirmed=%s detected_by=%s" % (meta["confirmed"], meta["detected_by"]))
-    finally:
-        shutil.rmtree(tmp, ignore_errors=True)
     return 0
 sys.exit(main())
